@@ -46,7 +46,7 @@ pub enum Grp<'a> {
 }
 pub const NAMES_G: [&str; 8] = ["get", "set", "get-led", "go", "led", "жук", "ledger", "жар"];
 
-const WL: usize = 3; // typed word bound (bytes)
+const WL: usize = 4; // typed word bound (bytes)
 const FMAX: usize = 6; // free space bound
 const NAMELEN: usize = 8; // longest name + 1
 
